@@ -247,7 +247,120 @@ fn grid(alpha_path: &str, depth: usize) {
     );
 }
 
+fn fmt_signal(s: &Signal) -> String {
+    let d = |v: &InputValue| match v {
+        InputValue::Value(n) => format!("{}", n),
+        InputValue::Z => "Z".to_string(),
+    };
+    match &s.typ {
+        SignalType::Input { default } => format!("in {} {} {}", s.name, s.bits, d(default)),
+        SignalType::Output => format!("out {} {}", s.name, s.bits),
+        SignalType::Bidirectional { default } => format!("bidir {} {} {}", s.name, s.bits, d(default)),
+        SignalType::Virtual { .. } => format!("virtual {} {}", s.name, s.bits),
+    }
+}
+
+type Loaded = Result<digital_test_runner::TestCase, digital_test_runner::errors::LoadTestError>;
+
+/// what the statement says load_test(i) equals: parse source i, bind it to the file's signals
+fn direct_load(src: &str, signals: Vec<Signal>) -> Loaded {
+    let p: ParsedTestCase = src.parse()?;
+    Ok(p.with_signals(signals)?)
+}
+
+fn load_class(r: &std::thread::Result<Loaded>) -> String {
+    match r {
+        Err(_) => "panic".into(),
+        Ok(Ok(_)) => "ok".into(),
+        Ok(Err(e)) => format!("err({})", esc(&format!("{}", e))),
+    }
+}
+
+/// `a` is what the file API returned, `b` the reference (None: an error other than a parse/signal error is required)
+fn cmp_load(a: std::thread::Result<Loaded>, b: Option<std::thread::Result<Loaded>>) -> String {
+    use digital_test_runner::errors::LoadTestError as L;
+    match b {
+        None => match &a {
+            Ok(Err(L::IndexOutOfBounds { .. })) => "index-error".into(),
+            Ok(Err(L::TestNotFound(_))) => "name-error".into(),
+            _ => format!("DIFFERS expected-lookup-error got {}", load_class(&a)),
+        },
+        Some(b) => {
+            let same = match (&a, &b) {
+                (Ok(Ok(x)), Ok(Ok(y))) => x == y,
+                (Ok(Err(x)), Ok(Err(y))) => format!("{}", x) == format!("{}", y),
+                (Err(_), Err(_)) => true,
+                _ => false,
+            };
+            if same {
+                format!("same {}", load_class(&a))
+            } else {
+                format!("DIFFERS got {} reference {}", load_class(&a), load_class(&b))
+            }
+        }
+    }
+}
+
+/// `verif_replay --dig [load] <file.dig>...`: runs dig::File::parse on the text of every file (under catch_unwind) and prints the recovered
+/// interface as one JSON line: "signals": ["in A 1 0", "out Y 4", "bidir B 1 Z"], "tests": [[name, source]..] or "error" /
+/// "panic"; with `load`, "loaded": for every test index i whether load_test(i) equals from_str(source i).with_signals(signals)
+/// (compared by the signal list and the Debug rendering of the statements' rows under a constant driver is out of reach:
+/// compared by Ok/Err class and the signals of the TestCase), and load_test(len) / load_test_by_name results.
+fn dig(path: &str, load: bool) {
+    let text = std::fs::read_to_string(path).expect("read dig file");
+    let r = catch_unwind(AssertUnwindSafe(|| digital_test_runner::dig::File::parse(&text)));
+    let mut o = String::from("{");
+    match r {
+        Err(p) => o += &format!("\"panic\": \"{}\"", esc(&panic_msg(p))),
+        Ok(Err(e)) => o += &format!("\"error\": \"{}\"", esc(&format!("{}", e))),
+        Ok(Ok(f)) => {
+            let sigs: Vec<String> = f.signals.iter().map(fmt_signal).collect();
+            o += &format!("\"signals\": {}", jlist(&sigs));
+            let tests: Vec<String> =
+                f.test_cases.iter().map(|t| format!("[\"{}\", \"{}\"]", esc(&t.name), esc(&t.source))).collect();
+            o += &format!(", \"tests\": [{}]", tests.join(", "));
+            if load {
+                let mut l = vec![];
+                for i in 0..=f.test_cases.len() {
+                    let a = catch_unwind(AssertUnwindSafe(|| f.load_test(i)));
+                    let b = if i < f.test_cases.len() {
+                        Some(catch_unwind(AssertUnwindSafe(|| direct_load(&f.test_cases[i].source, f.signals.clone()))))
+                    } else {
+                        None
+                    };
+                    l.push(format!("{} {}", i, cmp_load(a, b)));
+                }
+                o += &format!(", \"loaded\": {}", jlist(&l));
+                let mut names: Vec<String> = f.test_cases.iter().map(|t| t.name.clone()).collect();
+                names.push("no such test".into());
+                names.dedup();
+                let mut bn = vec![];
+                for n in names {
+                    let first = f.test_cases.iter().position(|t| t.name == n);
+                    let a = catch_unwind(AssertUnwindSafe(|| f.load_test_by_name(&n)));
+                    let b = first.map(|i| catch_unwind(AssertUnwindSafe(|| f.load_test(i))));
+                    bn.push(format!("{} {}", n, cmp_load(a, b)));
+                }
+                o += &format!(", \"by_name\": {}", jlist(&bn));
+            }
+        }
+    }
+    println!("{}}}", o);
+}
+
 fn main() {
+    if std::env::args().nth(1).as_deref() == Some("--dig") {
+        // --dig [load] <file>...: one JSON line per file, in order
+        let mut load = false;
+        for a in std::env::args().skip(2) {
+            if a == "load" {
+                load = true;
+            } else {
+                dig(&a, load);
+            }
+        }
+        return;
+    }
     if std::env::args().nth(1).as_deref() == Some("--grid") {
         let a = std::env::args().nth(2).expect("alphabet file");
         let d: usize = std::env::args().nth(3).and_then(|x| x.parse().ok()).unwrap_or(2);
